@@ -35,6 +35,19 @@ func genC14(r *rand.Rand, tier string) *progCase {
 	if r.IntN(3) == 0 {
 		c.Steps = append(c.Steps, PStep{K: "close"})
 	}
+	// a third of the programs meet one I/O or cache failure at a PRNG-chosen call of the subject
+	if r.IntN(3) == 0 {
+		if c.P["vmode"] == 2 {
+			c.P["vmode"] = 0 // actively persisted values + failed commits: C01's recorded finding, kept out of here
+		}
+		f := sim.FaultSpec{Task: "subject", Op: 1 + r.IntN(45), Kind: pick(r, "eio", "eio", "enospc", "err")}
+		if r.IntN(2) == 0 {
+			// aim inside a lifecycle call: the k-th intercepted call after Commit / Rollback / a phase began
+			f.After = pick(r, "rollback", "rollback", "commit", "p1", "p2")
+			f.Op = 1 + r.IntN(25)
+		}
+		c.Faults = []sim.FaultSpec{f}
+	}
 	return c
 }
 
@@ -77,6 +90,9 @@ func runC14(c *progCase) ([]Violation, *progStats) {
 	}
 	mode := c.Kind
 	tag := "/mode-" + mode
+	if len(c.Faults) > 0 {
+		tag += "/fault"
+	}
 	var vs []Violation
 	var trace []string
 	report := func(class, msg string) {
@@ -93,6 +109,7 @@ func runC14(c *progCase) ([]Violation, *progStats) {
 	newStoreCommitted, newStorePending := false, false
 	unjudgedCreate, createdInNonWriter := false, false
 	fuzzy := map[int]bool{}
+	rollbackErrored := false // an injected failure made Rollback itself fail: what it left behind is not judged (as in C01)
 	apply := func() {
 		contents = map[int]string{}
 		for k, v := range pending {
@@ -118,6 +135,10 @@ func runC14(c *progCase) ([]Violation, *progStats) {
 			case "begin":
 				err := tr.Begin(ctx)
 				trace = append(trace, fmt.Sprintf("Begin=%v", err))
+				if err != nil && state == "new" {
+					// only an injected failure makes a first Begin fail: the client gives the transaction up
+					return
+				}
 				if err == nil {
 					switch state {
 					case "new":
@@ -127,6 +148,7 @@ func runC14(c *progCase) ([]Violation, *progStats) {
 					}
 				}
 			case "commit":
+				e.S.Mark("commit")
 				err := tr.Commit(ctx)
 				trace = append(trace, fmt.Sprintf("Commit=%v", err))
 				switch state {
@@ -149,8 +171,12 @@ func runC14(c *progCase) ([]Violation, *progStats) {
 					}
 				}
 			case "rollback":
+				e.S.Mark("rollback")
 				err := tr.Rollback(ctx)
 				trace = append(trace, fmt.Sprintf("Rollback=%v", err))
+				if err != nil && (state == "begun" || state == "p1") {
+					rollbackErrored = true
+				}
 				switch state {
 				case "begun", "p1":
 					state, outcome = "ended", "rolledback"
@@ -160,6 +186,7 @@ func runC14(c *progCase) ([]Violation, *progStats) {
 					}
 				}
 			case "p1":
+				e.S.Mark("p1")
 				err := tr.GetPhasedTransaction().Phase1Commit(ctx)
 				trace = append(trace, fmt.Sprintf("Phase1Commit=%v", err))
 				switch state {
@@ -179,6 +206,7 @@ func runC14(c *progCase) ([]Violation, *progStats) {
 					}
 				}
 			case "p2":
+				e.S.Mark("p2")
 				err := tr.GetPhasedTransaction().Phase2Commit(ctx)
 				trace = append(trace, fmt.Sprintf("Phase2Commit=%v", err))
 				switch state {
@@ -284,6 +312,9 @@ func runC14(c *progCase) ([]Violation, *progStats) {
 				}
 				if err != nil {
 					// the wrapper rolls the transaction back on an operation error
+					if strings.Contains(err.Error(), "rollback failed") {
+						rollbackErrored = true
+					}
 					if !tr.HasBegun() {
 						state, outcome = "ended", "rolledback"
 					}
@@ -347,6 +378,10 @@ func runC14(c *progCase) ([]Violation, *progStats) {
 	}})
 	sort.Strings(stores)
 	hasNew := containsStr(stores, sp2.Name)
+	if rollbackErrored {
+		st.Probes["rollback_failed_on_fault"]++
+		return dedupe(vs), finishProg(e, st, c)
+	}
 	if len(fuzzy) > 0 {
 		// a write was accepted between the two phases: what the commit then persists is not judged
 		st.Probes["writes_between_phases"]++
@@ -376,12 +411,12 @@ var _ = sop.ForWriting
 func init() {
 	pc := &progCheck{id: "C14", perUnit: 25, gen: genC14, run: runC14}
 	Register(pc.def("exploration",
-		"each evaluation = one transaction in mode writer / reader / no-check driven through a seeded sequence of 3-15 calls drawn from Begin, Commit, Rollback, Phase1Commit, Phase2Commit, Close, OpenBtree, NewBtree, Add, Update, Upsert, Remove, Find, Get (70% start with Begin+OpenBtree so that the misuse happens on a live transaction), against a lifecycle state machine: no store operation may return success before Begin or after the end; a write may not be accepted by a non-writer; Phase2 needs Phase1; Rollback of a committed transaction, Begin/Commit/Phase1/Phase2 reporting success on a transaction that ended otherwise are violations; a cold process then reads the store and the store list, which must equal the model (changes only from a writer that committed). distinct_nontrivial = distinct call sequences",
+		"each evaluation = one transaction in mode writer / reader / no-check driven through a seeded sequence of 3-15 calls drawn from Begin, Commit, Rollback, Phase1Commit, Phase2Commit, Close, OpenBtree, NewBtree, Add, Update, Upsert, Remove, Find, Get (70% start with Begin+OpenBtree so that the misuse happens on a live transaction; a third of the programs get one injected I/O or cache failure at a PRNG-chosen call, e.g. inside Rollback or Commit), against a lifecycle state machine: no store operation may return success before Begin or after the end; a write may not be accepted by a non-writer; Phase2 needs Phase1; Rollback of a committed transaction, Begin/Commit/Phase1/Phase2 reporting success on a transaction that ended otherwise are violations; a cold process then reads the store and the store list, which must equal the model (changes only from a writer that committed). distinct_nontrivial = distinct call sequences",
 		func(tier string) int {
 			if tier == "thorough" {
 				return 1600
 			}
-			return 64
+			return 160
 		},
 		[]string{"btree transaction wrapper guards, common.Transaction lifecycle (Begin/Phase1Commit/Phase2Commit/Rollback/Close), sop.SinglePhaseTransaction, store repository, commit path on the simulated disk"},
 		[]string{"disk through the simulated file layer", "single client task (no schedule dimension: the property quantifies over call sequences)"},
